@@ -1,3 +1,4 @@
+import Sparrow.Proofs.BakeGlueEquiv
 import Sparrow.Proofs.PointInRect
 import Sparrow.Proofs.VisibilityLemmas
 /-
@@ -123,3 +124,46 @@ theorem pointInPolygon_axis_rect_outside (eta : ℝ) (h0 : 0 ≤ eta) (h1 : eta 
   Sparrow.pointInPolygon_axis_rect_outside eta h0 h1 k hk neg c u0 u1 v0 v1 hu hv s rev p hout
 
 end Sparrow.Props.C07
+
+namespace Sparrow.Props.C07.BakeGlue
+open Sparrow Sparrow.Generated.BakeGlue Sparrow.Generated.BakeKernels
+
+/-- the visibility matrix stored is the opaque test's result -/
+theorem bakeGeometry_visibility
+    (vis2 : (Nat → Nat → ℝ) → (Nat → Nat → ℝ) → (Nat → Nat → Nat → ℝ) → Nat → Nat → Bool)
+    (ffu : (Nat → Nat → Nat → ℝ) → (Nat → Nat → ℝ) → (Nat → ℝ) → Nat → (Nat → Nat → Nat) → Nat → Nat → ℝ)
+    (P : Nat) (pc pn : Nat → Nat → ℝ) (pp : Nat → Nat → Nat → ℝ) (pa : Nat → ℝ) (ptw : Nat → Nat)
+    (hasM : Bool) (W nIn D T : Nat) (dIn dOut : Nat → Nat → Nat → ℝ) (bidx : Nat → Nat) (brdf : Nat → Nat → Nat → Nat → ℝ)
+    (fnone : Bool) (B : Nat) (att : Option (Nat → ℝ)) (junk : Nat → Nat → Nat) :
+    (bakeGeometry vis2 ffu P pc pn pp pa ptw hasM W nIn D T dIn dOut bidx brdf fnone B att junk).1 = vis2 pc pn pp :=
+  Sparrow.bakeGeometry_visibility vis2 ffu P pc pn pp pa ptw hasM W nIn D T dIn dOut bidx brdf fnone B att junk
+
+/-- **the visible pairs**: as many rows as cells of the visibility matrix hold (the buffer is filled exactly), and row
+    `k` is the `k`-th such cell in row-major order -/
+theorem bakeGeometry_pairs
+    (vis2 : (Nat → Nat → ℝ) → (Nat → Nat → ℝ) → (Nat → Nat → Nat → ℝ) → Nat → Nat → Bool)
+    (ffu : (Nat → Nat → Nat → ℝ) → (Nat → Nat → ℝ) → (Nat → ℝ) → Nat → (Nat → Nat → Nat) → Nat → Nat → ℝ)
+    (P : Nat) (pc pn : Nat → Nat → ℝ) (pp : Nat → Nat → Nat → ℝ) (pa : Nat → ℝ) (ptw : Nat → Nat)
+    (hasM : Bool) (W nIn D T : Nat) (dIn dOut : Nat → Nat → Nat → ℝ) (bidx : Nat → Nat) (brdf : Nat → Nat → Nat → Nat → ℝ)
+    (fnone : Bool) (B : Nat) (att : Option (Nat → ℝ)) (junk : Nat → Nat → Nat) :
+    (bakeGeometry vis2 ffu P pc pn pp pa ptw hasM W nIn D T dIn dOut bidx brdf fnone B att junk).2.1.1 =
+      (visPairs P (vis2 pc pn pp)).length ∧
+    ∀ k (h : k < (visPairs P (vis2 pc pn pp)).length),
+      ((bakeGeometry vis2 ffu P pc pn pp pa ptw hasM W nIn D T dIn dOut bidx brdf fnone B att junk).2.1.2 k 0,
+       (bakeGeometry vis2 ffu P pc pn pp pa ptw hasM W nIn D T dIn dOut bidx brdf fnone B att junk).2.1.2 k 1) =
+        (visPairs P (vis2 pc pn pp))[k] :=
+  Sparrow.bakeGeometry_pairs vis2 ffu P pc pn pp pa ptw hasM W nIn D T dIn dOut bidx brdf fnone B att junk
+
+/-- the form factors are the opaque integrator's result for exactly these pairs -/
+theorem bakeGeometry_form_factors
+    (vis2 : (Nat → Nat → ℝ) → (Nat → Nat → ℝ) → (Nat → Nat → Nat → ℝ) → Nat → Nat → Bool)
+    (ffu : (Nat → Nat → Nat → ℝ) → (Nat → Nat → ℝ) → (Nat → ℝ) → Nat → (Nat → Nat → Nat) → Nat → Nat → ℝ)
+    (P : Nat) (pc pn : Nat → Nat → ℝ) (pp : Nat → Nat → Nat → ℝ) (pa : Nat → ℝ) (ptw : Nat → Nat)
+    (hasM : Bool) (W nIn D T : Nat) (dIn dOut : Nat → Nat → Nat → ℝ) (bidx : Nat → Nat) (brdf : Nat → Nat → Nat → Nat → ℝ)
+    (fnone : Bool) (B : Nat) (att : Option (Nat → ℝ)) (junk : Nat → Nat → Nat) :
+    (bakeGeometry vis2 ffu P pc pn pp pa ptw hasM W nIn D T dIn dOut bidx brdf fnone B att junk).2.2.1 =
+      ffu pp pn pa (visPairs P (vis2 pc pn pp)).length
+        (bakeGeometry vis2 ffu P pc pn pp pa ptw hasM W nIn D T dIn dOut bidx brdf fnone B att junk).2.1.2 :=
+  Sparrow.bakeGeometry_form_factors vis2 ffu P pc pn pp pa ptw hasM W nIn D T dIn dOut bidx brdf fnone B att junk
+
+end Sparrow.Props.C07.BakeGlue
